@@ -38,8 +38,9 @@ func init() {
 		Title: "A reported success identifies exactly where and what was written",
 		Explain: "Decides by provenance/guard/path analysis: the offset stored in the i-th message of an acknowledged partition set is block.Offset + i and the set is then reported (C04.offset); produceSet.add appends the message and its record exactly once together or not at all, with no error return after the append (C04.aligned); the record/message built carries the encoded key and value of that message and its headers index-for-index (C04.record); " +
 			"buildRequest numbers records/inner messages by their index and sets LastOffsetDelta = len-1 (C04.deltas); the partition is chosen once (retries == 0) and the choice is range-checked before indexing (C04.partition-once); the byte/count accounting of add and dropPartition is symmetric (C04.accounting). " +
+			"Shared with C09 because C04 names nil/empty keys and values: the null marker of a byte field is written only under a nil test (C09.null) and the sizing and writing passes of every primitive agree (C09.prep-real). " +
 			"NOT covered: codec output, per-version framing bytes (C09 decides encoder/decoder agreement), broker behaviour.",
-		Rules: []func(*Ctx){c04Offset, c04Aligned, c04Record, c04Deltas, c04PartitionOnce, c04Accounting},
+		Rules: []func(*Ctx){c04Offset, c04Aligned, c04Record, c04Deltas, c04PartitionOnce, c04Accounting, c09Null, c09PrepReal},
 	})
 }
 
@@ -167,30 +168,38 @@ func c04Deltas(c *Ctx) {
 	if fn == nil {
 		return
 	}
-	fi := Info(fn)
+	// the stores may sit in buildRequest or in a helper it calls (a few statements extracted)
+	fns := p.withHelpers(fn, 2)
 	chk := func(field, slicePath, what string) {
-		ss := fi.Find(StoreTo(nil, field))
-		if len(ss) == 0 {
-			c.Fail(rule, fn, what, nil, "no store to "+field+": relative offsets are not numbered", nil)
+		n := 0
+		for _, f := range fns {
+			fi := Info(f)
+			for _, s := range fi.Find(StoreTo(nil, field)) {
+				n++
+				st := s.In.(*ssa.Store)
+				base, _ := matchPath(fieldChain(st.Addr), field)
+				sl, l, ok := rangeElem(fi, base)
+				good := ok && FieldLoad(slicePath)(sl) && idxOf(l)(st.Val)
+				c.Check(good, rule, f, what, st, field+" ← index of the element in "+slicePath, field+" is not the element's index in "+slicePath+" (got "+describe(st.Val)+")", nil)
+			}
 		}
-		for _, s := range ss {
-			st := s.In.(*ssa.Store)
-			base, _ := matchPath(fieldChain(st.Addr), field)
-			sl, l, ok := rangeElem(fi, base)
-			good := ok && FieldLoad(slicePath)(sl) && idxOf(l)(st.Val)
-			c.Check(good, rule, fn, what, st, field+" ← index of the element in "+slicePath, field+" is not the element's index in "+slicePath+" (got "+describe(st.Val)+")", nil)
+		if n == 0 {
+			c.Fail(rule, fn, what, nil, "no store to "+field+" in buildRequest or its helpers: relative offsets are not numbered", nil)
 		}
 	}
 	chk("Record.OffsetDelta", "RecordBatch.Records", "record-offset-delta")
 	chk("MessageBlock.Offset", "MessageSet.Messages", "inner-relative-offset")
-	ss := fi.Find(StoreTo(nil, "RecordBatch.LastOffsetDelta"))
-	if len(ss) == 0 {
-		c.Fail(rule, fn, "last-offset-delta", nil, "LastOffsetDelta never set", nil)
+	n := 0
+	for _, f := range fns {
+		for _, s := range Info(f).Find(StoreTo(nil, "RecordBatch.LastOffsetDelta")) {
+			n++
+			st := s.In.(*ssa.Store)
+			good := BinOpOf(token.SUB, LenOf(FieldLoad("RecordBatch.Records")), ConstInt(1))(st.Val)
+			c.Check(good, rule, f, "last-offset-delta", st, "LastOffsetDelta ← len(rb.Records)-1", "LastOffsetDelta is not len(rb.Records)-1 (got "+describe(st.Val)+")", nil)
+		}
 	}
-	for _, s := range ss {
-		st := s.In.(*ssa.Store)
-		good := BinOpOf(token.SUB, LenOf(FieldLoad("RecordBatch.Records")), ConstInt(1))(st.Val)
-		c.Check(good, rule, fn, "last-offset-delta", st, "LastOffsetDelta ← len(rb.Records)-1", "LastOffsetDelta is not len(rb.Records)-1 (got "+describe(st.Val)+")", nil)
+	if n == 0 {
+		c.Fail(rule, fn, "last-offset-delta", nil, "LastOffsetDelta never set", nil)
 	}
 	_ = p
 }
